@@ -645,7 +645,49 @@ func TestVF_C08(t *testing.T) {
 	rec.SetExhaustive(true, fmt.Sprintf("prefix-closed enumeration over %d scenarios of this stack (this process ran %d sequences)", len(scs), total))
 }
 
+// C08b: a handshake message behind the peer's Finished (the sequence is one longer than a legal
+// flow), in the same record as Finished or in its own: the endpoint must end in an error and must
+// not hand over application data that follows.
+func TestVF_C08_Trailing(t *testing.T) {
+	if vfStack != "tlcp" {
+		// on the datagram stack handshake records that arrive after completion are retransmissions
+		// as far as the receiver can tell and are discarded by design (C19); the clause is stream-only
+		t.Skip("stream stack only")
+	}
+	rec := vfRec("C08", "C08b-trailing", "after an otherwise legal flow the scripted peer sends one more handshake message (types 0, 1, 2, 11, 16, 20, 99) behind its Finished, in the same record or in a record of its own, then application data; both roles, GCM and CBC; oracle: the endpoint reports an error and delivers nothing; distinct = the case")
+	idx := 0
+	for _, client := range []bool{true, false} {
+		for _, suite := range []uint16{ECC_SM4_GCM_SM3, ECC_SM4_CBC_SM3} {
+			for _, typ := range []int{0, 1, 2, 11, 16, 20, 99} {
+				for packed := 0; packed <= 1; packed++ {
+					idx++
+					if !vfMine(idx) {
+						continue
+					}
+					c := c09FloodCase{Client: client, Suite: suite, Kind: "trailing", N: typ, Size: packed}
+					sig, msg := c09RunFlood(c)
+					if sig != "" {
+						rec.Violation(sig, c, "%s", msg)
+					}
+					rec.Eval(true, c, fmt.Sprintf("packed:%d", packed))
+				}
+			}
+		}
+	}
+	rec.SetExhaustive(true, fmt.Sprintf("%d cases", idx))
+}
+
 func init() {
+	vfRegisterReplay("C08b-trailing", func(raw json.RawMessage) error {
+		var c c09FloodCase
+		if err := json.Unmarshal(raw, &c); err != nil {
+			return err
+		}
+		if sig, msg := c09RunFlood(c); sig != "" {
+			return fmt.Errorf("%s: %s", sig, msg)
+		}
+		return nil
+	})
 	vfRegisterReplay("C08-orders", func(raw json.RawMessage) error {
 		var c c08Case
 		if err := json.Unmarshal(raw, &c); err != nil {
